@@ -611,6 +611,8 @@ func (r *run) query(op core.Op, duringFlush bool) {
 		for _, p := range r.points[:before] {
 			if p.field == q.field {
 				c.Sim.Event("  point series=%s %v ts=+%ds value=%v", r.series[p.series].id, r.series[p.series].tags(), (p.ts-Jan1)/1000, p.value)
+			} else {
+				c.Sim.Event("  (other field %s) series=%s ts=+%ds value=%v", fieldSpecs[p.field].name, r.series[p.series].id, (p.ts-Jan1)/1000, p.value)
 			}
 		}
 		for _, s := range rs.Series {
@@ -626,6 +628,25 @@ func (r *run) query(op core.Op, duringFlush bool) {
 			c.Sim.Event("  result %v: %s", s.Tags, line)
 		}
 		r.dumpIndex()
+		for _, fs := range fieldSpecs {
+			rs2, err2 := r.n.Query(r.db, "select "+fs.name+" from m where time>='2000-01-01 00:00:00' and time<='2000-01-01 00:59:59' group by id,time(10s)", lay)
+			if err2 != nil {
+				c.Sim.Event("  all %s: %v", fs.name, err2)
+				continue
+			}
+			for _, s2 := range rs2.Series {
+				var ts []int64
+				for t := range s2.Fields[fs.name] {
+					ts = append(ts, t)
+				}
+				sort.Slice(ts, func(i, j int) bool { return ts[i] < ts[j] })
+				line := ""
+				for _, t := range ts {
+					line += fmt.Sprintf("+%ds:%v ", (t-Jan1)/1000, s2.Fields[fs.name][t])
+				}
+				c.Sim.Event("  all %s %v: %s", fs.name, s2.Tags, line)
+			}
+		}
 		c.Sim.Event("  result interval=%d start=+%ds end=+%ds", rs.Interval, (rs.StartTime-Jan1)/1000, (rs.EndTime-Jan1)/1000)
 	}
 }
